@@ -776,7 +776,10 @@ fn C05_C09_stateful_delivery_and_nonces() {
             let _ = rcv.read_message(&msgs[0], &mut p);
             if rcv.receiving_nonce() != u64::MAX - 1 { finding("C09", format!("{}: a rejected read at nonce 2^64-2 moved the counter to {}", name, rcv.receiving_nonce())); bad += 1; }
             if s.sending_nonce() != before { finding("C09", format!("{}: set_receiving_nonce / reads on the peer changed nothing here, yet the sending nonce moved", name)); bad += 1; }
-            // setting the RECEIVING nonce never touches the sending side of the same endpoint
+            // setting the RECEIVING nonce never touches the sending side of the same endpoint (either endpoint, one-way patterns included)
+            let sn0 = s.sending_nonce(); s.set_receiving_nonce(0); s.set_receiving_nonce(u64::MAX); s.set_receiving_nonce(5);
+            if s.sending_nonce() != sn0 { finding("C09", format!("{}: set_receiving_nonce on the sending endpoint moved its SENDING nonce from {} to {}", name, sn0, s.sending_nonce())); bad += 1; }
+            match s.write_message(b"still in sequence", &mut buf) { Ok(_) if s.sending_nonce() == sn0 + 1 => {}, o => { finding("C09", format!("{}: after set_receiving_nonce calls on the sender the next write returns {:?} and the sending nonce is {} (expected {})", name, o, s.sending_nonce(), sn0 + 1)); bad += 1; } }
             let sn = rcv.sending_nonce(); rcv.set_receiving_nonce(77); if rcv.sending_nonce() != sn { finding("C09", format!("{}: set_receiving_nonce changed the sending nonce of the same endpoint ({} -> {})", name, sn, rcv.sending_nonce())); bad += 1; }
         }
         if bad >= 4 { break; }
@@ -836,6 +839,16 @@ fn C15_rekey() {
         if !roundtrip(&mut tr, &mut ti) { finding("C15", format!("{}: rekeying the initiator->responder direction disturbed the other direction", name)); bad += 1; }
         tr.rekey_outgoing(); ti.rekey_incoming();
         if !roundtrip(&mut tr, &mut ti) || !roundtrip(&mut ti, &mut tr) { finding("C15", format!("{}: responder-direction rekey breaks sync", name)); bad += 1; }
+        // rekeying never moves a counter, not even an exhausted one
+        {
+            let (i9, r9) = finished_pair(name); let (mut t9, mut u9) = (i9.into_transport_mode().unwrap(), r9.into_transport_mode().unwrap());
+            for nv in [u64::MAX, u64::MAX - 1, 7] {
+                t9.set_receiving_nonce(nv); u9.set_receiving_nonce(nv);
+                t9.rekey_incoming(); t9.rekey_outgoing(); t9.rekey_manually(Some(&[3u8; 32]), Some(&[4u8; 32])); t9.rekey_initiator_manually(&[5u8; 32]); t9.rekey_responder_manually(&[6u8; 32]);
+                u9.rekey_incoming(); u9.rekey_manually(Some(&[3u8; 32]), Some(&[4u8; 32]));
+                if t9.receiving_nonce() != nv || u9.receiving_nonce() != nv || t9.sending_nonce() != 0 || u9.sending_nonce() != 0 { finding("C15", format!("{}: rekey calls moved a nonce: receiving nonce set to {} is now {} / {}, sending nonces {} / {}", name, nv, t9.receiving_nonce(), u9.receiving_nonce(), t9.sending_nonce(), u9.sending_nonce())); bad += 1; }
+            }
+        }
         // one-sided rekey must break exactly that direction
         ti.rekey_outgoing();
         let n = ti.write_message(b"x", &mut buf).unwrap();
